@@ -1,8 +1,12 @@
 #!/bin/sh
 # all_seeds.sh — apply every stored seeded change (in a scratch copy, /repo untouched) and run the quick tier of the checks that
 # meta.json says catch it; prints one line per (seed, check): CAUGHT / MISSED.
+# VP_SHARD=i/N runs every N-th seed starting at the i-th (several shards side by side need different VP_SLOTs).
 cd /verif
+k=0
 for d in seeded/*/; do
+  k=$((k+1))
+  if [ -n "$VP_SHARD" ] && [ $((k % ${VP_SHARD#*/})) -ne $((${VP_SHARD%/*} % ${VP_SHARD#*/})) ]; then continue; fi
   s=$(basename $d)
   ids=$(python3 -c "
 import json,re
